@@ -600,8 +600,8 @@ func scC08Race(r *Run) {
 }
 
 func init() {
-	register(&PropDef{ID: "C08", Quick: 1300, Thorough: 60000, Profiles: []ProfileDef{
-		{Name: "serial", Share: 10, Sc: scC08Serial},
+	register(&PropDef{ID: "C08", Quick: 2500, Thorough: 100000, Profiles: []ProfileDef{
+		{Name: "serial", Share: 2, Sc: scC08Serial},
 		{Name: "race", Share: 3, Sc: scC08Race, Race: true},
 	}})
 }
